@@ -42,4 +42,8 @@ def run(ctx, rep):
     rep.run(RG.rule_free_text_bounded, ctx, rep, "V7")
     rep.require_min("V6", 4)
     rep.run(RF.rule_name_dispatch_rejects_unknown, ctx, rep, "V9")
+    # V10: text the grammar accepts reaches the tree: a constructor handed the values of a repetition keeps all of them (= C01 G13)
+    rep.run(RT.rule_result_shapes, ctx, rep, "V10")
+    # V11: a failing run terminates: no `while` loop can iterate without changing what its condition reads
+    rep.run(RF.rule_while_loops_make_progress, ctx, rep, "V11")
     rep.run(RF.rule_locals_defined, ctx, rep, "U1", packages=("gtwrap/interface_parser", "scripts/"), min_functions=3)
